@@ -26,4 +26,6 @@ sub("parser/src/dataset/read.rs",
     "            offset_table_next: false,\n            delimiter_check_pending: false,\n            hard_break: false,\n            in_sequence: false,\n            peek: None,\n            last_header: None,")
 sub("object/src/mem.rs", "        if buflen >= 132 && &buf[128..132] == b\"DICM\" {",
     "        const PREAMBLE: usize = 128;\n        if buflen >= PREAMBLE + 4 && &buf[PREAMBLE..PREAMBLE + 4] == b\"DICM\" {")
+# second set (kept as a patch): two disjoint match arms swapped, an unused helper and a new accessor added, `?` rewritten as a match,
+# `len() == 0` -> `is_empty()`, operands of an equality swapped -- apply with `git -C <tree> apply selftest/benign_variant2.diff`
 print("benign edits applied to", root)
